@@ -1,7 +1,8 @@
 SPECIFICATION Spec
 CONSTANTS
-  MaxSet = 3
-  Bases <- BasesNone
+  MaxSet = 1
+  Bases <- BasesEme
   Ordered = TRUE
+INVARIANTS TypeOK NoLeak Partition Recovered
 ACTION_CONSTRAINT EmitBehaviour
 CHECK_DEADLOCK FALSE
